@@ -22,7 +22,8 @@ var reserveNames = []string{"r0", "r1", "r2", "r3"}
 func genLayoutFile(rt *rapid.T, k int) ([]*tw.Stmt, map[string]string) {
 	where := map[string]string{}
 	var out []*tw.Stmt
-	out = append(out, tw.Text("<html>\n"))
+	// a counter of the layout that inserts at top-level reserves may step
+	out = append(out, tw.Text("<html>\n"), tw.Assign("cnt", intLit(0)))
 	for i := 0; i < k; i++ {
 		name := reserveNames[i]
 		res := &tw.Stmt{Kind: tw.SReserve, Name: name}
@@ -55,7 +56,7 @@ func genLayoutFile(rt *rapid.T, k int) ([]*tw.Stmt, map[string]string) {
 			out = append(out, tw.Print(rapid.SampledFrom([]*tw.Expr{tw.Var("s1"), tw.Var("i1"), tw.Bin("+", tw.Var("i1"), intLit(1)), tw.Str("lit")}).Draw(rt, "layoutExpr")))
 		}
 	}
-	out = append(out, tw.Text("</html>\n"))
+	out = append(out, tw.Text("#"), tw.Print(tw.Var("cnt")), tw.Text("</html>\n"))
 	return out, where
 }
 
@@ -91,6 +92,11 @@ func genPage(rt *rapid.T, env *dataEnv, layoutRef string, k int, where map[strin
 				forms[ins.Name+"/uses-layout-loop"] = "block"
 			}
 			forms[ins.Name] = "block"
+			if w := where[reserveNames[i]]; (w == "top" || w == "in-attribute") && rapid.Bool().Draw(rt, "stepsLayoutCounter") {
+				// the body replaces the reserve: it can read and step a variable of the layout
+				ins.Body = append(ins.Body, tw.Assign("cnt", tw.Bin("+", tw.Var("cnt"), intLit(1))), tw.Text("@"), tw.Print(tw.Var("cnt")))
+				forms[ins.Name+"/assigns-layout-variable"] = "block"
+			}
 		} else {
 			eg := &exprGen{env: env}
 			ins.E = eg.gen(rt, rapid.SampledFrom([]refint.Kind{refint.KInt, refint.KStr, refint.KBool}).Draw(rt, "insK"), 2)
@@ -114,7 +120,7 @@ func genPage(rt *rapid.T, env *dataEnv, layoutRef string, k int, where map[strin
 
 func TestC06_Layouts(t *testing.T) {
 	c := harness.New(t, "C06", "layouts",
-		"template directories with a layout (1..4 distinct reserves at top level, inside @if(data flag), inside @each(data array) with loop.index, in attribute-like text, nested @if/@each/@if) and a page using it by '~name', 'layouts/name' or another spelling of that path (/layouts/name, ./layouts/name, layouts//name, pages/../layouts/name; names with dots, dashes and digits included), the @use standing before, between or after the inserts, inserting a random subset of the reserves in random order, block form (markers, prints of data, @if/@each bodies) or expression form, with junk text, comments and blank lines between inserts; data maps with every kind; directory 't' or 'x/t', extensions .tw / .tw.html / .html. Expected output: the reference composition model (layout rendered with each reserve replaced by the reference rendering of its insert, page text outside inserts discarded). Non-trivial: >= 2 reserves, one nested in @if/@each, and a proper non-empty subset inserted. Distinct by hash of files + data.")
+		"template directories with a layout (1..4 distinct reserves at top level, inside @if(data flag), inside @each(data array) with loop.index, in attribute-like text, nested @if/@each/@if) and a page using it by '~name', 'layouts/name' or another spelling of that path (/layouts/name, ./layouts/name, layouts//name, pages/../layouts/name; names with dots, dashes and digits included), the @use standing before, between or after the inserts, inserting a random subset of the reserves in random order, block form (markers, prints of data, @if/@each bodies, steps of a counter the layout declares and prints at its end) or expression form, with junk text, comments and blank lines between inserts; data maps with every kind; directory 't' or 'x/t', extensions .tw / .tw.html / .html. Expected output: the reference composition model (layout rendered with each reserve replaced by the reference rendering of its insert, page text outside inserts discarded). Non-trivial: >= 2 reserves, one nested in @if/@each, and a proper non-empty subset inserted. Distinct by hash of files + data.")
 	defer c.Finish()
 	in := interp()
 	runRapid(t, c, 4000, 45000, func(rt *rapid.T) {
